@@ -328,7 +328,7 @@ class ValueGen:
             elif t == 'chunked':
                 self.walk(cls, i['body'], fields, env, depth, st)
             elif t == 'break':
-                pass
+                st['none'] = False          # a <break> starts a new segment: optionals may be present again
             elif t == 'switch':
                 fname = a['field']
                 fv = env.get(fname)
@@ -883,6 +883,8 @@ def obj_mutants(R, vg, cls, body, o, depth=0):
     missing = False
     for i in flat_body(body):
         t, a = i['tag'], i.get('attrs', {})
+        if t == 'break':
+            missing = False
         if t == 'field' and a.get('name') is not None and i.get('text') is None:
             name = a['name']
             v = flds.get(name)
